@@ -251,6 +251,26 @@ def gen_wellformed(kind: str) -> t.Iterator[t.Tuple[t.Any, t.Callable[[], t.Any]
                             return E.EptMapResult(entry_handle=handle, towers=[[mk_floor(E, f) for f in tw] for tw in towers_ref], status=status)
 
                         yield [kind, list(residues), bool(handle), status], mk, ref, E.EptMapResult.unpack
+        # the SAME tower listed several times (an endpoint registered twice; the same object or an equal copy), the same floor repeated inside
+        # a tower, towers in the reverse order: a list is a list
+        tA = [repm.uuid_floor(rpc.ISD_KEY), repm.tcp_floor(49664), repm.ip_floor(0)]
+        tB = [repm.uuid_floor(rpc.ISD_KEY), repm.tcp_floor(49665), repm.ip_floor(1), repm.tcp_floor(49665), repm.tcp_floor(49665)]
+        for li, lst in enumerate([[tA, tA], [tA, tB, tA], [tA, tA, tA, tA], [tB, tB], [tB, tA, tB, tA]]):
+            for same_object in (True, False):
+                ref = repm.ept_map_response(lst, 0, b"\x00" * 20)
+
+                def mk3(lst=lst, same_object=same_object):
+                    built: t.Dict[int, t.Any] = {}
+                    towers = []
+                    for tw in lst:
+                        if same_object and id(tw) in built:
+                            towers.append(built[id(tw)])
+                        else:
+                            built[id(tw)] = [mk_floor(E, f) for f in tw]
+                            towers.append(built[id(tw)])
+                    return E.EptMapResult(entry_handle=None, towers=towers, status=0)
+
+                yield [kind, "dup", li, same_object], mk3, ref, E.EptMapResult.unpack
     else:
         raise AssertionError(kind)
 
